@@ -38,7 +38,7 @@ def main():
         extra = json.load(open(sys.argv[3]))
     head = subprocess.check_output(['git', '-C', '/repo', 'rev-parse', '--short', 'HEAD']).decode().strip()
     for prop in sorted(os.listdir(root)):
-        for m in ('m1', 'm2'):
+        for m in ('m1', 'm2', 'm3', 'm4'):
             src = os.path.join(root, prop, m)
             if not os.path.exists(os.path.join(src, 'confirm.txt')) or not os.path.exists(os.path.join(src, 'patch.diff')):
                 continue
